@@ -90,6 +90,7 @@ func (nodes *delayedNodes) length() int {
 //     set to false, and immediately returned at the subsequent call of `traversal.next()` at the last line.
 //  2. If the traversal is preorder, the current node will be returned.
 func (t *traversal) next() (*Node, error) {
+	verifYield("traversal.next")
 	// End of traversal.
 	if t.delayedNodes.length() == 0 {
 		return nil, nil
